@@ -11,6 +11,8 @@ CONSTANTS
   Iters = {1, 2}
   OutPaths = {0, 1, 2}
   MaxSteps = 2
+  SizeClasses <- AllSizes
+  UnitLens <- UnitLensSmall
   Variant = "signpath"
 INVARIANT SigVerifies
 CHECK_DEADLOCK FALSE
